@@ -230,8 +230,56 @@ func vC03SlowLogin(t *testing.T, out *vEmitter) {
 	}
 }
 
+// vC03FormPost: the identity provider delivers the authorization response as a form POST (response_mode=form_post):
+// state and code arrive in the urlencoded body instead of the query.  The login's own state and cookie complete it; a
+// state of another login, or none, does not - exactly as for a GET callback.
+func vC03FormPost(t *testing.T, out *vEmitter) {
+	for _, perReq := range []bool{false, true} {
+		for _, enc := range []bool{false, true} {
+			perReq, enc := perReq, enc
+			e := vNewEnv(t, vEnvCfg{oidc: true, mod: func(o *options.Options) {
+				o.Cookie.CSRFPerRequest = perReq
+				o.EncodeState = enc
+				o.Providers[0].OIDCConfig.InsecureSkipNonce = true
+			}})
+			for _, how := range []string{"body", "query", "body-state-of-other-login", "body-without-state", "state-in-body-code-in-query"} {
+				b := e.newBrowser("https://app.example.com")
+				other := e.newBrowser("https://app.example.com").start("/other")
+				l := b.start("/x")
+				e.idp.stdToken("user@example.com", l.Nonce, nil)
+				form := "code=c0de&state=" + url.QueryEscape(l.State)
+				target := e.opts.ProxyPrefix + "/callback"
+				want := true
+				switch how {
+				case "query":
+					target, form = target+"?"+form, ""
+				case "body-state-of-other-login":
+					form, want = "code=c0de&state="+url.QueryEscape(other.State), false
+				case "body-without-state":
+					form, want = "code=c0de", false
+				case "state-in-body-code-in-query":
+					target, form = target+"?code=c0de", "state="+url.QueryEscape(l.State)
+				}
+				hs := [][2]string{{"Content-Type", "application/x-www-form-urlencoded"}}
+				cb := b.do("POST", target, hs, form)
+				issued := e.sessionCookieSet(cb)
+				out.Obs("form-post-callback", true, vL(vBool(perReq), vBool(enc), vS(how), vI(int64(cb.Status)), vBool(issued)))
+				out.Stat("c03_form_post_callbacks", 1)
+				det := map[string]interface{}{"csrf_per_request": perReq, "encode_state": enc, "delivery": how, "status": cb.Status, "session": issued}
+				if want && !issued {
+					out.Violation("callback/own-login-rejected", "a callback carrying the unmodified state and CSRF cookie of one login was refused", det)
+				}
+				if !want && issued {
+					out.Violation("callback/session-without-matching-login", "the callback issued a session although state and CSRF cookie do not belong to one login of this proxy", det)
+				}
+			}
+		}
+	}
+}
+
 func driveC03(t *testing.T, out *vEmitter) {
 	defer vC03SlowLogin(t, out)
+	defer vC03FormPost(t, out)
 	defer vC03JarOverlap(t, out)
 	type combo struct{ perReq, enc, pkce, redis bool }
 	var combos []combo
